@@ -32,7 +32,10 @@ pub fn c12_variants(tier: &str, words: &[u32]) -> Vec<Variant> {
                 continue;
             }
             let me = id(A, 1).with(Renew::Next);
-            let cfg = Cfg { fanout, notify_down: false, ..Cfg::default() };
+            // two peers: remove_down_after shorter than probe_rtt, so a target
+            // that goes Down during a round is also FORGOTTEN before it ends
+            let remove_down = if peers == 2 { 30 } else { Cfg::default().remove_down };
+            let cfg = Cfg { fanout, notify_down: false, remove_down, ..Cfg::default() };
             // a reconfiguration in the middle of a round must not end it
             let more_helpers = Ev::SetConfig(Box::new(Cfg { fanout: fanout + 1, ..cfg.clone() }));
             let mut s = CoreSpec::new(&format!("c12-peers{peers}-fanout{fanout}"), me, cfg);
